@@ -145,8 +145,21 @@ fn main() {
     ] {
         ev_parse(&mut t, &s, "max");
     }
+    // integer parts far longer than the 78 digits of the largest amount, through leading zeros: the value decides
+    for k in [1usize, 2, 59, 60, 77, 78, 79, 100, 300] {
+        let z = "0".repeat(k);
+        for tail in ["".to_string(), "1".to_string(), "1.5".to_string(), ".5".to_string(), "0.000000000000000001".to_string(), format!("{mu}.{mf}"),
+                     format!("{mu}.{:018}", mf_n + 1), mu_plus1.clone(), format!("{mu}"), maxs.clone(), "9".repeat(60), "9".repeat(61)] {
+            ev_parse(&mut t, &format!("{z}{tail}"), "zeros");
+            ev_parse(&mut t, &format!("{z}{tail}.{z}"), "zeros");
+        }
+    }
+    // line ends: a value read from a file or a terminal (not trimmed by the parser: foreign characters)
+    for s in ["1\n", "1\r\n", "1\r", "\n1", "\r1", "1.5\n", "1.5\r\n", "1.\n5", "1\n.5", "\n", "\r", "\r\n", "0\n0", "1.000000000000000000\n"] {
+        ev_parse(&mut t, s, "foreign");
+    }
     // foreign characters inserted in valid strings
-    let foreign = ['_', '+', '-', 'x', 'e', ' ', ',', 'b', 'o', '\u{0661}', '\t', '.'];
+    let foreign = ['_', '+', '-', 'x', 'e', ' ', ',', 'b', 'o', '\u{0661}', '\t', '.', '\n', '\r'];
     for base in ["0", "1.5", "12.000000000000000001", "0x10", "100"] {
         for pos in 0..=base.len() {
             for &f in &foreign {
